@@ -464,7 +464,7 @@ pub fn c02_blanket_array_n5() {
     blanket_array::<5>();
 }
 
-// @verif prop=C02 tier=quick fl=f0 role=inherent/matrix t=900 mem=12
+// @verif prop=C02 tier=quick fl=f0 role=inherent/matrix t=1500 mem=24
 #[cfg_attr(kani, kani::proof)]
 #[cfg_attr(kani, kani::unwind(10))]
 pub fn c02_inherent_matrix_n3() {
